@@ -412,8 +412,13 @@ func transTypeLfd(transTV func(TypeVar) FType, lfd LetFuncDef) LetFuncDef {
 	return LetFuncDef{Fvar: nfvar, Params: nparams, Body: nbody}
 }
 
-func resolveOneTypeVar(rsv Resolver, tv TypeVar) FType {
-	recurse := (func(_r0 TypeVar) FType { return resolveOneTypeVar(rsv, _r0) })
+func resolveOneTypeVarP(rsv Resolver, path []string, tv TypeVar) FType {
+	frt.IfOnly(slice.Forany(func(n string) bool {
+		return frt.OpEqual(n, tv.Name)
+	}, path), (func() {
+		PanicNow("Recursive type found, can't resolve.")
+	}))
+	recurse := (func(_r0 TypeVar) FType { return resolveOneTypeVarP(rsv, slice.PushHead(tv.Name, path), _r0) })
 	ei := rsLookupEI(rsv, tv.Name)
 	rcand := ei.resType
 	switch _v15 := (rcand).(type) {
@@ -427,6 +432,10 @@ func resolveOneTypeVar(rsv Resolver, tv TypeVar) FType {
 	default:
 		return transTVFType(recurse, rcand)
 	}
+}
+
+func resolveOneTypeVar(rsv Resolver, tv TypeVar) FType {
+	return resolveOneTypeVarP(rsv, slice.New[string](), tv)
 }
 
 func resolveType(rsv Resolver, ftp FType) FType {
